@@ -199,7 +199,15 @@ func (e *Entry) Modules() *Modules {
 	for e.Parent != nil {
 		e = e.Parent
 	}
-	return e.Node.(*Module).Modules
+	// The root of a tree is the entry of a module, except for the entries
+	// of groupings, augments and deviations that other entries refer to.
+	if e.Node == nil {
+		return nil
+	}
+	if m := RootNode(e.Node); m != nil {
+		return m.Modules
+	}
+	return nil
 }
 
 // IsDir returns true if e is a directory.
@@ -1470,7 +1478,7 @@ func (e *Entry) Find(name string) *Entry {
 					mod.NName(), e.Path()))
 				return nil
 			}
-			if m != e.Node.(*Module) {
+			if rm, ok := e.Node.(*Module); !ok || m != rm {
 				e = ToEntry(m)
 			}
 		} else if sm, ok := e.Node.(*Module); ok && sm.Kind() == "submodule" {
@@ -1583,7 +1591,11 @@ func (e *Entry) InstantiatingModule() (string, error) {
 		return "", fmt.Errorf("entry %s had nil namespace", e.Name)
 	}
 
-	module, err := e.Modules().FindModuleByNamespace(n.Name)
+	ms := e.Modules()
+	if ms == nil {
+		return "", fmt.Errorf("entry %s does not belong to a module", e.Name)
+	}
+	module, err := ms.FindModuleByNamespace(n.Name)
 	if err != nil {
 		return "", fmt.Errorf("could not find module %q when retrieving namespace for %s: %v", n.Name, e.Name, err)
 	}
